@@ -187,6 +187,24 @@ def context_case(ctx, case):
     else:
         ctx.violation(sig_of(cfg, q="ctx_raises", context="batched", exc=type(e2.error).__name__), f"[reversed] env.step raised {e2.error}", None)
 
+    # ---- context: env object reuse with a growing batch (object-level state such as FFSP's index tables) ------
+    idx = good + good
+    e7 = scripted_run(idx, [scripts[i] for i in idx], "first_true")
+    if e7.error is None:
+        for pos, b in enumerate(idx):
+            if pos >= len(good):  # the second half sits at positions the first reset never had
+                check("doubled", e7, pos, b, scripts[b], len(idx), pos)
+    env_keep = env
+    try:
+        env, _, _ = build(cfg, family, m, seed)  # fresh object: first reset solo, second reset the pool
+        solo(env, td, good[0], scripts[good[0]], gen)
+        e8 = scripted_run(good, [scripts[i] for i in good], "last_true")
+        if e8.error is None:
+            for pos, b in enumerate(good):
+                check("solo_then_batch", e8, pos, b, scripts[b], len(good), pos)
+    finally:
+        env = env_keep
+
     slow = max(good, key=lambda b: len(scripts[b]))
     targets = rng.sample(good, min(case.get("targets", 3), len(good)))
     for b in targets:
